@@ -92,7 +92,7 @@ REACH = ["honest_attestation", "wrong_subject_refused", "wrong_subject_with_own_
          "expired_registration_refused", "just_below_300s_attested", "replay_refused",
          "tampered_disclosure_refused", "third_party_attestation_refused", "valid_attestation_stored",
          "missing_request_unpermitted_refused", "missing_request_beyond_index_limited",
-         "long_chain_missing_tokens_served", "authority_restarted", "two_pseudonyms_one_manager", "subject_sent_self_signed_attestation_first"]
+         "long_chain_missing_tokens_served", "authority_restarted", "two_pseudonyms_one_manager", "subject_sent_self_signed_attestation_first", "subject_never_sends_a_valid_signature_for_one_token"]
 
 NODES = ("A", "S1", "S2", "T")
 IPS = {"A": "1.0.0.1", "S1": "1.0.0.2", "S2": "1.0.0.3", "T": "1.0.0.4"}
@@ -236,6 +236,12 @@ def m_long_chain(r) -> list:  # noqa: ANN001
     return [_adv_many(s, r.choice((33, 36, 39, 45))), _reg("A", s, h, name), _req(s, "A", h, name), _sleep(3.0)]
 
 
+def m_long_chain_bad(r) -> list:  # noqa: ANN001
+    s, h, name = r.choice(("S1", "S2")), r.randrange(NH), r.choice(NAMES)
+    return [_adv_many(s, r.choice((33, 36, 39, 45))), _reg("A", s, h, name),
+            _req(s, "A", h, name, None, r.choice(("token_sig", "token_sig_persistent", "token_sig_persistent")), r.randrange(16)), _sleep(3.0)]
+
+
 def m_beyond_index(r) -> list:  # noqa: ANN001
     s, (h1, h2), name = r.choice(("S1", "S2")), r.sample(range(NH), 2), r.choice(NAMES)
     k = r.choice((10, 12, 15))
@@ -263,9 +269,10 @@ MOTIFS = (("honest", m_honest, ("honest_attestation",)),
           ("forged_attest", m_forged_attest, ()),
           ("missing_unpermitted", m_missing_unpermitted, ()),
           ("long_chain", m_long_chain, ("honest_attestation", "long_chain_missing_tokens_served")),
+          ("long_chain_bad", m_long_chain_bad, ()),
           ("beyond_index", m_beyond_index, ()),
           ("restart", m_restart, ()))
-WEIGHTS = (3, 2, 6, 2, 3, 5, 4, 4, 2, 3, 3, 1, 2, 2)
+WEIGHTS = (3, 2, 6, 2, 3, 5, 4, 4, 2, 3, 3, 1, 2, 2, 2)
 
 FIXED = (
     ("just_below", [_reg("A", "S1", 0, "n0"), _sleep(299.0), _req("S1", "A", 0, "n0"), _sleep(1.0)],
@@ -310,6 +317,10 @@ FIXED = (
      ("honest_attestation",)),
     # S1 and S2 are two pseudonyms of ONE user (one IdentityManager, as the CommunicationManager sets them up): what the user
     # opened to A on pseudonym S1 says nothing about pseudonym S2
+    # a long chain: the disclosure carries only the newest tokens, the attester asks for the rest.  A token with a broken signature in
+    # the first message arrives before its parents.
+    *[(f"long_chain_bad_token_first_{ti}", [_adv_many("S1", 36), _reg("A", "S1", 0, "n0"),
+                                            _req("S1", "A", 0, "n0", None, "token_sig_persistent", ti), _sleep(3.0)], ()) for ti in range(14)],
     ("self_attestation_first", [{"op": "adv", "node": "S1", "h": 0, "name": "n0"}, _reg("A", "S1", 0, "n0"),
                                 {"op": "attest_forge", "node": "S1", "to": "A", "mode": "self_md"}, _sleep(0.5),
                                 {"op": "disclose", "node": "S1", "to": "A", "h": 0}, _sleep(1.0),
@@ -872,6 +883,8 @@ def execute(case: dict) -> dict:  # noqa: C901, PLR0915
             check_tokens_out(node, pkt, rec)
         st["deferred"].clear()
 
+    poison: set = set()
+
     def tamper_fit(node, kind: str, ti: int):  # noqa: ANN001, ANN202
         orig = node.ov._fit_disclosure  # noqa: SLF001
         rng = world.stream("tamper")
@@ -882,6 +895,29 @@ def execute(case: dict) -> dict:  # noqa: C901, PLR0915
             if kind == "token_sig" and n:
                 i = (ti % n) * TOK + 64 + 5
                 toks = toks[:i] + bytes([toks[i] ^ 0x10]) + toks[i + 1:]
+            elif kind == "token_sig_persistent" and n:
+                # a DISHONEST subject: one token of its chain never carries a valid signature, in whatever message it travels
+                j = (ti % n) * TOK
+                poison.add(toks[j:j + 64])
+                c.probe("subject_never_sends_a_valid_signature_for_one_token")
+                if not getattr(node.ov, "_c17_poisoned", False):
+                    node.ov._c17_poisoned = True  # noqa: SLF001
+                    inner_send = node.ov.ez_send
+
+                    def poisoned_send(peer, *payloads, **kw):  # noqa: ANN001, ANN002, ANN003, ANN202
+                        for pl in payloads:
+                            tk = getattr(pl, "tokens", None)
+                            if isinstance(tk, (bytes, bytearray)) and tk:
+                                b = bytearray(tk)
+                                for q in range(0, len(b) - TOK + 1, TOK):
+                                    if bytes(b[q:q + 64]) in poison:
+                                        b[q + 64 + 5] ^= 0x10
+                                pl.tokens = bytes(b)
+                        return inner_send(peer, *payloads, **kw)
+                    node.ov.ez_send = poisoned_send
+                for q in range(0, len(toks) - TOK + 1, TOK):
+                    if toks[q:q + 64] in poison:
+                        toks = toks[:q + 69] + bytes([toks[q + 69] ^ 0x10]) + toks[q + 70:]
             elif kind == "extra_bad_token":
                 toks = toks + rng.randbytes(TOK)
             elif kind == "md_sig":
